@@ -457,8 +457,14 @@ func (e *Extractor) invokeXObject(name string) error {
 		}
 	}
 
-	// Register fonts from XObject's resources
+	// Register fonts from XObject's resources. They shadow the caller's fonts
+	// of the same name only while the form is drawn
+	savedFonts := e.fonts
 	if xobjResources != nil {
+		e.fonts = make(map[string]*font.Font, len(savedFonts))
+		for k, v := range savedFonts {
+			e.fonts[k] = v
+		}
 		if err := e.RegisterFontsFromResources(xobjResources, e.resolver); err != nil {
 			// Non-fatal - continue with existing fonts
 		}
@@ -490,6 +496,7 @@ func (e *Extractor) invokeXObject(name string) error {
 	if err != nil {
 		// Restore state and return error
 		e.resources = oldResources
+		e.fonts = savedFonts
 		e.xobjectDepth--
 		e.gs.Restore()
 		return fmt.Errorf("failed to parse XObject content: %w", err)
@@ -504,6 +511,7 @@ func (e *Extractor) invokeXObject(name string) error {
 
 	// Restore state
 	e.resources = oldResources
+	e.fonts = savedFonts
 	e.xobjectDepth--
 	e.gs.Restore()
 
